@@ -53,11 +53,15 @@ def legacy(seed, k, tier):
                 s.entry(h, u, [{"t": "pFCT", "amt": 300 * 10**8, "conv": "pUSD"}, {"t": "pFCT", "amt": 300 * 10**8, "conv": "pXBT"},
                                {"t": "pFCT", "amt": 300 * 10**8, "conv": "pDCR"}, {"t": "pFCT", "amt": 30 * 10**8, "conv": "PEG"}])
         elif h > L["TxConv"] + 1:
-            for u in users:
-                if rnd.random() < 0.75:
-                    src = rnd.choice(CLS)
-                    dst = rnd.choice([c for c in CLS if c != src])
-                    s.convert(h, u, src, rnd.choice([1000, 10**6, 2 * 10**8]), dst, track=False)
+            # systematic: every height, every user; sources rotate over the funded assets, destinations over all classes,
+            # so that around every activation each (funded source, destination class) pair is submitted in B-2 .. B+1
+            funded = ["pFCT", "pUSD", "pXBT", "pDCR", "PEG"]
+            for i, u in enumerate(users):
+                src = funded[(i + h) % len(funded)]
+                dst = CLS[(i * 2 + h * 3) % len(CLS)]
+                if dst == src:
+                    dst = CLS[(CLS.index(dst) + 1) % len(CLS)]
+                s.convert(h, u, src, rnd.choice([1000, 10**6, 2 * 10**8]), dst, track=False)
     s.tip(36)
     return s
 
